@@ -246,7 +246,17 @@ def word_matrix(w, H, T):
     return A
 
 
-def replay_mat(rows, hdr, agg, stats, nontriv):
+def _cmp_mat(agg, stats, deferred, key, got, exc, exp, what, inputs, event):
+    """Matrix results are compared with the canonical form TLC computed.  When the least denominator exponent is negative
+    (value divisible by sqrt2; never the case for a unitary) the class keeps another representation: TLC decides by value."""
+    if exc == "" and got != exp and exp[0] < 0:
+        stats["replayed"] += 1
+        deferred.append(event(got))
+        return False
+    return _cmp(agg, stats, key, got, exc, exp, what, inputs)
+
+
+def replay_mat(rows, hdr, agg, stats, nontriv, deferred):
     H = DyadicMatrix(ZOmega(d=1), ZOmega(d=1), ZOmega(d=1), ZOmega(d=-1), k=1)
     T = DyadicMatrix(ZOmega(d=1), ZOmega(), ZOmega(), ZOmega(c=1))
     words = hdr["words"]
@@ -264,7 +274,9 @@ def replay_mat(rows, hdr, agg, stats, nontriv):
                         ("m2k", lambda: A.mult2k(1)), ("add1", lambda: A + 1)):
             v, e = call(f)
             opn = {"x2": "muli", "xw": "mulom", "m2k": "mult2k", "add1": "addi"}.get(name, name)
-            _cmp(agg, stats, "dy." + opn, dy(v) if e == "" else None, e, dy_tla(row[name]), f"DyadicMatrix[{ws}] {opn}", [w])
+            kw = {"muli": {"n": 2}, "mulom": {"z": [0, 0, 1, 0]}, "mult2k": {"n": 1}, "addi": {"n": 1}}.get(opn, {})
+            _cmp_mat(agg, stats, deferred, "dy." + opn, dy(v) if e == "" else None, e, dy_tla(row[name]), f"DyadicMatrix[{ws}] {opn}", [w],
+                     lambda got, opn=opn, kw=kw: ev("dy." + opn, x=dy(A), out=got, **kw))
         R = so3s[n]
         _cmp(agg, stats, "so3.new", so3(R) if R is not None else None, "" if R is not None else "exception", m3_tla(row["so3"]),
              f"SO3Matrix(DyadicMatrix[{ws}])", [w])
@@ -275,7 +287,8 @@ def replay_mat(rows, hdr, agg, stats, nontriv):
             if ok and len(w) >= 2 and len(w2) >= 2:
                 nontriv.add(("dy.matmul", tuple(w), tuple(w2)))
             v, e = call(lambda: A + mats[m])
-            _cmp(agg, stats, "dy.add", dy(v) if e == "" else None, e, dy_tla(row["sum"][m]), f"DyadicMatrix[{ws}] + DyadicMatrix[{ws2}]", [w, w2])
+            _cmp_mat(agg, stats, deferred, "dy.add", dy(v) if e == "" else None, e, dy_tla(row["sum"][m]), f"DyadicMatrix[{ws}] + DyadicMatrix[{ws2}]",
+                     [w, w2], lambda got, m=m: ev("dy.add", x=dy(A), y=dy(mats[m]), out=got))
             if R is not None and so3s[m] is not None:
                 v, e = call(lambda: R @ so3s[m])
                 _cmp(agg, stats, "so3.matmul", so3(v) if e == "" else None, e, m3_tla(row["so3prod"][m]), f"SO3Matrix[{ws}] @ SO3Matrix[{ws2}]", [w, w2])
@@ -409,9 +422,9 @@ def nonfunctional_events(rng, tier, stats):
     bo = range(-1, 2)
     O = [ZOmega(a, b, c, d) for a in bo for b in bo for c in bo for d in bo]
     O2 = [ZOmega(a, b, c, d) for a in range(-2, 3) for b in range(-2, 3) for c in range(-2, 3) for d in range(-2, 3)]
-    for x in O:
-        for y in O:
-            if any(om(y)):
+    for ix, x in enumerate(O):
+        for iy, y in enumerate(O):
+            if any(om(y)) and (tier != "quick" or (ix + iy) % 3 == 0):
                 v, e = call(lambda: x % y, limit=2)
                 evs.append(ev("om.mod", x=om(x), y=om(y), exc=e, out=om(v) if e == "" else []))
     for x in O2:
@@ -642,6 +655,30 @@ def controls(rng):
 
 
 # ----------------------------------------------------------------------------------------------- driver
+def generate(tier):
+    """Model check ZRings.tla (ring laws on the reference) and emit the rows for the replay: one JVM."""
+    quick = tier == "quick"
+    consts = {"MODES": '{"s2", "s2t", "om", "omt", "mat"}', "B2": 3 if quick else 4, "BO": 2, "BP": 1 if quick else 2, "BE": 1 if quick else 2,
+              "BT": 1, "SPARSE": 2 if quick else 4, "WLEN": 4 if quick else 6}
+    wd = lib.workdir(PID, "gen")
+    g = lib.run_tlc("ZRingsGen", lib.cfg(constants=consts, invariants=INVARIANTS), wd, timeout=3000)
+    if g.invariant_violated:
+        raise lib.MachineryError(f"the reference ZRings.tla violates a ring law ({g.invariant_violated}): oracle error\n" + g.out[-1500:])
+    lib.require_ok(g, "ZRingsGen")
+    g.out = ""
+    return g, consts
+
+
+def validate(traces):
+    """Trace validation of all recorded events: one JVM."""
+    wd2 = lib.workdir(PID, "trace")
+    (wd2 / "traces.json").write_text(json.dumps(traces))
+    r = lib.run_tlc("Trace_ZRings", lib.cfg(init="TInit", next_="TNext", constants={"NTRACES": len(traces)}), wd2,
+                    env={"TRACE_FILE": str(wd2 / "traces.json")}, timeout=3000)
+    lib.require_ok(r, "Trace_ZRings")
+    return r
+
+
 def run(tier, seed):
     rng = random.Random(seed)
     random.seed(seed)                                  # norm_solver._integer_factorize draws from the global generator
@@ -649,12 +686,7 @@ def run(tier, seed):
     agg, stats = Agg(), Counter()
     nontriv = set()
     t0 = time.time()
-    consts = {"MODES": '{"s2", "s2t", "om", "omt", "mat"}', "B2": 3 if quick else 4, "BO": 2, "BE": 2, "BT": 1, "WLEN": 4 if quick else 6}
-    wd = lib.workdir(PID, "gen")
-    g = lib.run_tlc("ZRingsGen", lib.cfg(constants=consts, invariants=INVARIANTS), wd, timeout=3000)
-    if g.invariant_violated:
-        raise lib.MachineryError(f"the reference ZRings.tla violates a ring law ({g.invariant_violated}): oracle error\n" + g.out[-1500:])
-    lib.require_ok(g, "ZRingsGen")
+    g, consts = generate(tier)
     hdr = [r for r in g.json_lines if r["kind"] == "hdr"]
     rows = {k: [r for r in g.json_lines if r["kind"] == k] for k in ("s2", "om", "mat")}
     n2, no, nw = (2 * consts["B2"] + 1) ** 2, (2 * consts["BO"] + 1) ** 4, 2 ** (consts["WLEN"] + 1) - 1
@@ -666,10 +698,11 @@ def run(tier, seed):
         replay_s2(r, hdr, agg, stats, nontriv)
     for r in rows["om"]:
         replay_om(r, hdr, agg, stats, nontriv)
-    replay_mat(rows["mat"], hdr, agg, stats, nontriv)
+    deferred = []
+    replay_mat(rows["mat"], hdr, agg, stats, nontriv, deferred)
     # negative control of the comparator: a corrupted expected product must be flagged
     tmp, bad = Agg(), json.loads(json.dumps(next(r for r in rows["om"] if r["x"] == [1, 2, -1, 2])))
-    bad["mul"][77][2] += 1
+    bad["mul"][50][2] += 1
     replay_om(bad, hdr, tmp, Counter(), set())
     if list(tmp.d) != ["replay:om.mul"] or tmp.d["replay:om.mul"][0] != 1:
         raise lib.MachineryError(f"negative control of the replay comparator not rejected exactly once: {list(tmp.d)}")
@@ -677,7 +710,8 @@ def run(tier, seed):
     t2 = time.time()
 
     events = (ring_events(rng, 120 if quick else 1500, 120 if quick else 1500, stats) + nonfunctional_events(rng, tier, stats)
-              + matrix_events(rng, tier, stats) + number_theory_events(rng, tier, stats))
+              + matrix_events(rng, tier, stats) + number_theory_events(rng, tier, stats) + deferred)
+    stats["replay_deferred_to_trace"] = len(deferred)
     for e in events:
         if e["op"] in ("om.mul", "s2.mul", "dy.matmul", "om.law", "s2.law", "dy.law", "so3.hom", "nt.dioph") and e["exc"] == "":
             nontriv.add((e["op"], e["law"], tuple(e["x"]), tuple(e["y"]), tuple(e["z"])))
@@ -686,11 +720,7 @@ def run(tier, seed):
     pos, neg = controls(rng)
     traces += [{"events": [e]} for _, e in pos] + [{"events": [e]} for _, e in neg]
     t3 = time.time()
-    wd2 = lib.workdir(PID, "trace")
-    (wd2 / "traces.json").write_text(json.dumps(traces))
-    r = lib.run_tlc("Trace_ZRings", lib.cfg(init="TInit", next_="TNext", constants={"NTRACES": len(traces)}), wd2,
-                    env={"TRACE_FILE": str(wd2 / "traces.json")}, timeout=3000)
-    lib.require_ok(r, "Trace_ZRings")
+    r = validate(traces)
     verd = {t[1] - 1: t[2:] for t in r.tuples if t[0] == "V"}
     fails = {}
     for t in r.json_lines:
@@ -730,7 +760,7 @@ def run(tier, seed):
                                  "that have a solution by construction (soundness of returned solutions cannot be judged)")
     ops = Counter(e["op"] for e in events)
     sol = next((e for e in events if e["op"] == "nt.dioph" and e["exc"] == "" and e["x"][0] > 500), None)
-    samples = [{"op": "ZOmega * ZOmega (replayed)", "x": rows["om"][400]["x"], "y": hdr["om"][123], "expected": rows["om"][400]["mul"][123]},
+    samples = [{"op": "ZOmega * ZOmega (replayed)", "x": rows["om"][400]["x"], "y": hdr["om"][50], "expected": rows["om"][400]["mul"][50]},
                {"op": "SO3Matrix(DyadicMatrix[HTH]) (replayed)", "expected_k_and_entries": m3_tla(next(r for r in rows["mat"] if r["w"] == [1, 2, 1])["so3"])}]
     if sol:
         samples.append({"op": "_solve_diophantine", "xi": sol["x"], "t": sol["out"], "checked_by_TLC": "t^+ t = xi"})
@@ -744,9 +774,9 @@ def run(tier, seed):
                    "solver calls with non-degenerate operands (ring elements with >= 2 non-zero coefficients, words of length >= 2)",
            "samples": samples, "exhaustive": True,
            "model": {"module": "ZRings / ZRingsGen", "invariants": INVARIANTS, "states": g.distinct, "constants": consts,
-                     "zsqrt2_elements": n2, "zomega_elements": no, "zomega_unordered_pairs": no * (no + 1) // 2,
-                     "zomega_triples": (2 * consts["BT"] + 1) ** 12, "zsqrt2_triples": n2 ** 3, "clifford_t_words": nw, "word_pairs": nw * nw},
-           "replayed_operations": stats["replayed"], "trace_events": len(events), "trace_events_by_op": dict(sorted(ops.items())),
+                     "zsqrt2_elements": n2, "zomega_elements": no, "zomega_pairs": no * (no + 1) // 2 if consts["BP"] == consts["BO"] else no * (2 * consts["BP"] + 1) ** 4,
+                     "zomega_triples": (2 * consts["BT"] + 1) ** 8 * sum(math.comb(4, j) * (2 * consts["BT"]) ** j for j in range(consts["SPARSE"] + 1)), "zsqrt2_triples": n2 ** 3, "clifford_t_words": nw, "word_pairs": nw * nw},
+           "replayed_operations": stats["replayed"], "replay_deferred_to_trace": stats["replay_deferred_to_trace"], "trace_events": len(events), "trace_events_by_op": dict(sorted(ops.items())),
            "trace_states": r.distinct,
            "primality_exhaustive_below": stats["primality_exhaustive_below"], "primality_big_numbers": stats["primality_big_numbers"],
            "primality_big_probable_primes": stats["primality_big_probable_primes"],
